@@ -485,6 +485,11 @@ func sliceTakes(v ssa.Value, p ssa.Value, depth int) bool {
 		if b, ok := x.Call.Value.(*ssa.Builtin); ok && b.Name() == "append" && len(x.Call.Args) == 2 {
 			return sliceTakes(x.Call.Args[1], p, depth-1) || sliceTakes(x.Call.Args[0], p, depth-1)
 		}
+		for _, r := range sliceHelperReturns(x) {
+			if sliceTakes(r, p, depth-1) {
+				return true
+			}
+		}
 	case *ssa.Slice:
 		return sliceTakes(x.X, p, depth-1)
 	case *ssa.Phi:
